@@ -168,7 +168,8 @@ impl VmStateIterator {
             memory: self.chiplets.get_mem_state_at(ctx, self.clk),
         });
 
-        self.clk -= 1;
+        // the first clock cycle is the lower bound of the iteration
+        self.clk = self.clk.saturating_sub(1);
 
         result
     }
